@@ -101,9 +101,8 @@ def run(tier):
     def progress_blocks():
         """blocks assigning total_bytes_read := total_bytes_read + bytes_read (bytes_read = .1 of the decode result)"""
         out = set()
-        tb = [i for i, l in enumerate(dl.locals) if l.get("name") == "total_bytes_read"]
         for bi, si, s in cfg.stmts(dl):
-            if s["k"] != "assign" or s["lhs"]["p"] or (tb and s["lhs"]["l"] not in tb):
+            if s["k"] != "assign" or s["lhs"]["p"] or dl.locals[s["lhs"]["l"]]["ty"] != "usize":
                 continue
             e = cfg.expr_operand(dl, s["rv"].get("a", {})) if s["rv"]["k"] == "use" else None
             if e and e[0] == "place" and e[2] == [("field", "0")] and e[1][0] == "bin" and e[1][1].startswith("Add"):
